@@ -8,7 +8,7 @@ import warnings
 
 import numpy as np
 
-from . import lib
+from . import lib, hist
 from .lib import cbool, cnat, cZ, clist, cshape, copt
 
 HEADER = 'From Coq Require Import List ZArith Bool.\nFrom PM Require Import Base Mask C14Model.\nImport ListNotations.\n'
@@ -63,7 +63,25 @@ def gen_bool_operand(rng, shape, rep=None):
             'mrep': rep}
 
 
+HIST_MODES = ['setitem', 'iand', 'ior', 'ixor', 'iadd', 'isub', 'imul']
+_ALT = {'iand': 'iadd', 'ior': 'isub', 'ixor': 'imul', 'iadd': 'iand', 'isub': 'ior', 'imul': 'ixor', 'itruediv': 'ixor'}
+
+
+def via_history(d, obj, Pm):
+    h = d.get('hist')
+    if not h:
+        return obj
+    mode = h[0]
+    if mode not in hist.modes_for(obj):
+        mode = _ALT.get(mode, 'setitem')
+    return hist.reach(Pm, obj, mode, h[1])
+
+
 def build_bool(d, Pm):
+    return via_history(d, _build_bool(d, Pm), Pm)
+
+
+def _build_bool(d, Pm):
     shape = tuple(d['shape'])
     if shape == ():
         return Pm.Boolean(bool(d['vals'][0]), d['mask'] if isinstance(d['mask'], bool) else bool(d['mask'][0]))
@@ -108,6 +126,10 @@ def gen_num_operand(rng, shape, item=(), cls='Scalar', unit=None, rep=None, dran
 
 
 def build_num(d, Pm):
+    return via_history(d, _build_num(d, Pm), Pm)
+
+
+def _build_num(d, Pm):
     shape = tuple(d['shape'])
     item = tuple(d['item'])
     arr = np.array(d['vals'], dtype=float if d['float'] else int).reshape(shape + item)
@@ -316,6 +338,12 @@ def gen_cases(rng, tier):
                 cases.append({'kind': 'tvlcmp', 'op': rng.choice(CMPS), 'a': a, 'b': b})
             else:
                 cases.append({'kind': 'truth', 'op': rng.choice(['eq', 'ne']), 'a': a, 'b': b})
+    # a fraction of the operands is REACHED THROUGH A HISTORY (harness/hist.py: cached views asked for, then an
+    # in-place operation / assignment that brings the object to the described content) - seeded change C14-D
+    for c in cases:
+        for k in ('a', 'b'):
+            if k in c and rng.random() < 0.2:
+                c[k] = dict(c[k], hist=[rng.choice(HIST_MODES), rng.randrange(24)])
     return cases
 
 
